@@ -531,7 +531,8 @@ Definition verdict_of (oc : outcome) : verdict :=
 (* no account is open twice *)
 Definition distinct (open : list tx) : Prop := NoDup (map tx_acct open).
 
-(* the line names an account (always so for a line read from a file: textual.cc:499 never passes NULL) *)
+(* the line names an account (a check-out line that ends after the timestamp passes NULL:
+   textual.cc clock_out_directive; its failures are listed by clock_out_failed) *)
 Definition named (ev : event) : Prop :=
   match ev with CheckOut o => tx_acct o <> None | CheckIn _ => True end.
 
